@@ -30,7 +30,7 @@ def batch(binary, n, race, off):
     return jobs
 
 agg = {"runs": 0, "steps": 0, "switches": 0, "ops": 0, "histories": 0, "porcupine_unknown": 0, "by_kind": {}, "exec_overlapping_reprice": 0,
-       "exec_calls": 0, "reprices": 0, "rejected_schedules": 0, "epoch_events": 0}
+       "exec_calls": 0, "reprices": 0, "rejected_schedules": 0, "epoch_events": 0, "tasks_compared_with_their_plan_run_alone": 0}
 schedules = set()
 violations = []   # dicts: seed, kind, detail, race, choices
 samples = []
@@ -44,7 +44,7 @@ def collect(job):
     except Exception as e:
         trouble = f"worker {job['tag']} wrote no readable result: {e}"
         return
-    for k in ("runs", "steps", "switches", "ops", "histories", "porcupine_unknown", "exec_overlapping_reprice", "exec_calls", "reprices", "rejected_schedules", "epoch_events"):
+    for k in ("runs", "steps", "switches", "ops", "histories", "porcupine_unknown", "exec_overlapping_reprice", "exec_calls", "reprices", "rejected_schedules", "epoch_events", "tasks_compared_with_their_plan_run_alone"):
         agg[k] += o.get(k, 0)
     if job["race"]:
         race_runs += o.get("runs", 0)
@@ -170,6 +170,7 @@ ev = {
         "operations_in_histories": agg["ops"], "histories_checked_by_porcupine": agg["histories"], "porcupine_unknown_timeouts": agg["porcupine_unknown"],
         "workloads": agg["by_kind"],
         "exec_calls": agg["exec_calls"], "exec_calls_overlapping_a_schedule_change": agg["exec_overlapping_reprice"],
+        "executing_tasks_compared_with_their_plan_run_alone": agg["tasks_compared_with_their_plan_run_alone"],
         "schedule_changes": agg["reprices"], "rejected_schedules_interleaved": agg["rejected_schedules"], "epoch_notifications": agg["epoch_events"],
         "faults_fired": {"context switch at statement granularity": agg["switches"], "rejected schedule offered concurrently": agg["rejected_schedules"]},
         "coverage_holes": holes,
